@@ -37,7 +37,11 @@ def generate(rng, n, tier):
         v = qg.any_statement()
         script = qg.script()
         styles = [s for s in STYLES if not collides(script, s)]
-        yield {"script": script, "var": v, "style": rng.choice(styles), "exec": i % 4 == 0}
+        st = rng.choice(styles)
+        # dict styles with a placeholder generator of the caller's own (names that begin / end with the characters of the
+        # style's decoration included): the name in the text is the key in the collected dict
+        pgen = rng.choice(["slot%d", "s%ds", "status%d", "(p%d)", "%d", "p_%d_s"]) if st in ("named", "pyformat") and rng.random() < 0.25 else None
+        yield {"script": script, "var": v, "style": st, "exec": i % 4 == 0, "pgen": pgen}
 
 
 COLLIDE = {"qmark": "Parameter('?')", "numeric": "Parameter(':1')", "format": "Parameter('%s')"}
@@ -127,7 +131,8 @@ def examine(case):
         return res
     q = env[case["var"]]
     st = case["style"]
-    P = getattr(ns, STYLES[st])()
+    pgen = case.get("pgen")
+    P = getattr(ns, STYLES[st])((lambda i: pgen % i) if pgen else None) if pgen else getattr(ns, STYLES[st])()
     try:
         inline = q.get_sql()
     except Exception as e:
@@ -136,7 +141,7 @@ def examine(case):
     params = P.get_parameters()
     plist = list(params.values()) if isinstance(params, dict) else list(params)
     res.nontrivial = len(plist) >= 2
-    res.key = struct_hash([src, st])
+    res.key = struct_hash([src, st, pgen])
     res.tags = ["style=" + st, "nparams=%d" % min(len(plist), 6), "cls=" + type(q).__name__[:12]]
 
     def F(kind, what):
@@ -199,7 +204,10 @@ def examine(case):
                         merged.append(x)
                 if not same_tokens(merged, simple(itoks)):
                     F("substitution", "substituting the collected values does not reproduce the inline rendering %s" % inline)
-    # model: same document flattened both ways
+    # model: same document flattened both ways (the model numbers its placeholders the default way)
+    if pgen:
+        res.tags.append("pgen=custom")
+        return res
     try:
         spec = describe.describe(q)
         ctx = describe.d_ctx({}, param=True)
